@@ -1,7 +1,8 @@
 import NetqasmVerif.Driver.Codec
+import NetqasmVerif.Driver.Epr
 open Lean NQ.Drv
 
-def handlers : List (String → Json → Option Json) := [handleCodec]
+def handlers : List (String → Json → Option Json) := [handleCodec, handleEpr]
 
 def dispatch (j : Json) : Json :=
   match (jField? j "op").bind jStr? with
